@@ -601,4 +601,55 @@ theorem eliminates_needs_fresh_plug :
   decide
 
 
+/-! ## the judgements on a pending substitution are sound for the resolved pattern -/
+
+theorem substS_preserves_eFresh (X y : VId) (plug : Pat) (hp : plug.eFresh y = true) :
+    ∀ p : Pat, p.eFresh y = true → (substS X plug p).eFresh y = true := by
+  intro p; induction p with
+  | svar z => intro h; simp only [substS]; split
+              · exact hp
+              · exact h
+  | mu z p ih => intro h; simp only [substS]; split
+                 · exact h
+                 · simp [eFresh] at h ⊢; exact ih h
+  | ex Z p ih => intro h; simp [eFresh] at h; simp only [substS, eFresh]; rcases h with h | h
+                 · simp [h]
+                 · simp [ih h]
+  | imp l r ihl ihr => intro h; simp [eFresh] at h; simp [substS, eFresh, ihl h.1, ihr h.2]
+  | app l r ihl ihr => intro h; simp [eFresh] at h; simp [substS, eFresh, ihl h.1, ihr h.2]
+  | _ => intro h; simpa [substS] using h
+
+/-- the checker judges a PENDING substitution (`ESubst`/`SSubst` node, `e_fresh`/`s_fresh` arms of lib.rs:136-215) no more
+generously than the RESOLVED pattern: whenever the judgement holds of the deferred node it holds of the textbook result.
+(Syntactic counterpart of C06's semantic soundness, for concrete bodies.) -/
+theorem pending_esubst_eFresh_sound (e x : VId) (plug p : Pat) (hc : concrete p = true)
+    (h : (esub p x plug).eFresh e = true) : (substE x plug p).eFresh e = true := by
+  simp only [eFresh] at h
+  split at h
+  · rename_i hex; have : e = x := by simpa using hex
+    subst this; exact substE_eliminates e plug h p hc
+  · simp at h; exact substE_preserves_eFresh x e plug h.2 p h.1
+
+theorem pending_ssubst_sFresh_sound (s X : VId) (plug p : Pat) (hc : concrete p = true)
+    (h : (ssub p X plug).sFresh s = true) : (substS X plug p).sFresh s = true := by
+  simp only [sFresh] at h
+  split at h
+  · rename_i hex; have : s = X := by simpa using hex
+    subst this; exact substS_eliminates s plug h p hc
+  · simp at h; exact substS_preserves_sFresh X s plug h.2 p h.1
+
+theorem pending_esubst_sFresh_sound (s x : VId) (plug p : Pat)
+    (h : (esub p x plug).sFresh s = true) : (substE x plug p).sFresh s = true := by
+  simp [sFresh] at h; exact substE_preserves_sFresh x s plug h.2 p h.1
+
+theorem pending_ssubst_eFresh_sound (e X : VId) (plug p : Pat)
+    (h : (ssub p X plug).eFresh e = true) : (substS X plug p).eFresh e = true := by
+  simp [eFresh] at h; exact substS_preserves_eFresh X e plug h.2 p h.1
+
+/-- the converse fails, by design: the judgement on the pending node is the more cautious one — evar 0 is not judged fresh in the
+deferred `(sym 0)[evar 0 / evar 1]` although the resolved pattern `sym 0` does not contain it -/
+theorem pending_judgement_is_conservative :
+    (esub (.sym 0) 1 (.evar 0)).eFresh 0 = false ∧ (substE 1 (.evar 0) (.sym 0)).eFresh 0 = true := by decide
+
+
 end C11
